@@ -743,3 +743,9 @@ package mail
 //@   ensures[C01:single-top-leaf] mw.top <= 1
 //@   loop 3 invariant[C01:top] 0 <= mw.top && mw.top <= 1 && (mw.depth > 0 ==> mw.top == 0) && (mw.depth == 0 ==> (atmostonelive(msg) && (mw.top == 1 ==> (0 <= world.lastlive && world.lastlive <= rangeindex && world.lastlive < len(msg.parts) && plive(msg.parts[world.lastlive])))))
 //@   loop 4 invariant[C01:top] 0 <= mw.top && mw.top <= 1 && mw.depth >= 1
+// what is announced is what is applied: the encoding named in a leaf's Content-Transfer-Encoding header is the one
+// handed to writeBody together with that leaf's producer, and writeBody puts the matching encoder in front of it
+// (base64 through the line breaker)
+//@ at mail.msgWriter.writePart mail.msgWriter.writeBody#1 before assert[C01:encoding-announced-is-applied] arg2 == part.encoding && arg1 == part.writeFunc
+//@ at mail.msgWriter.addFiles mail.msgWriter.writeBody#1 before assert[C01:producer-of-this-file] arg1 == file.Writer
+//@ at mail.msgWriter.writeBody mail.msgWriter.writeBody.writeFunc#2 before assert[C01:encoder-matches] (encoding == "quoted-printable" ==> arg0.enckind == 1) && (encoding == "base64" ==> (arg0.enckind == 2 && arg0.wtarget == lineBreaker && lineBreaker.out == writeBuffer))
